@@ -82,18 +82,11 @@ Definition ts_ok (x : Z) : bool := (TS_MIN + 259200 <=? x) && (x <=? TS_MAX - 25
 (* what a FixedOffset can carry *)
 Definition fo_ok (o : Z) : bool := (-86400 <? o) && (o <? 86400).
 
-Definition year_start (y : Z) : Z := (dn_of_ymd y 1 1 - EPOCH_DN) * 86400.
-(* the property's premise for year y: both rule transitions, read on either clock, lie more than
-   one day inside the calendar year; and they are two different instants *)
-Definition premise_year (a : srule) (y : Z) : bool :=
-  let lo := year_start y + 86400 in
-  let hi := year_start (y + 1) - 86400 in
-  let s := rule_start_utc a y in
-  let e := rule_end_utc a y in
-  forallb (fun l => (lo <? l) && (l <? hi)) [s + r_std a; s + r_dst a; e + r_std a; e + r_dst a]
-  && negb (s =? e).
+(* [year_start], [premise_year] are in Spec/Zone.v; the oracle looks two years either way *)
 Definition premise_at (a : srule) (x : Z) : bool :=
-  let y := utc_year x in premise_year a (y - 1) && premise_year a y && premise_year a (y + 1).
+  let y := utc_year x in
+  premise_year a (y - 2) && premise_year a (y - 1) && premise_year a y && premise_year a (y + 1)
+  && premise_year a (y + 2).
 (* the rule can matter for x only from three days before the last table transition on *)
 Definition rule_dom (z : szone) (x : Z) : bool :=
   match z_rule z with
